@@ -32,7 +32,7 @@ impl Monitor for C11 {
 		"C11"
 	}
 	fn rule(&self) -> String {
-		"C01's well-formed replay space (a sixth of the generated files additionally carry one unknown event with a 16-64 KiB payload, or junk after Game End inside the raw element); each file is followed by random trailing garbage after its closing brace (which must NOT be hashed) and read with compute_hash through the instrumented source under fragmentation schedules {whole, 1-byte, fixed 2/3/7/64/4096 and two drawn from {15,16,127..129,255..257,511,512,1000,1024,8191..8193,65536}, random 1..5, random 1..300, every two-piece split (every 3rd file <= 3 KB in quick; every 2nd file <= 12 KB in thorough; 64 random splits otherwise)} x skip-frames {off, on (finished files only)}. Oracle: hash == 'xxh3:' + 16 lowercase hex digits of the one-shot xxh3_64 over exactly the bytes the counting source delivered, which must equal the file through its closing brace; identical across schedules and skip on/off; None when hashing is not requested; unchanged by a .slpp round trip. One evaluation = one read. distinct = workload classes x schedule.".into()
+		"C01's well-formed replay space (a sixth of the generated files additionally carry one unknown event with a 16-64 KiB payload, or junk after Game End inside the raw element); each file is followed by random trailing garbage after its closing brace (which must NOT be hashed) and read with compute_hash through the instrumented source under fragmentation schedules {whole, 1-byte, fixed 2/3/7/64/4096 and two drawn from {15,16,127..129,255..257,511,512,1000,1024,8191..8193,65536}, random 1..5, random 1..300, whole reads with every 2nd/3rd/7th/50th call answered by ErrorKind::Interrupted, every two-piece split (every 3rd file <= 3 KB in quick; every 2nd file <= 12 KB in thorough; 64 random splits otherwise)} x skip-frames {off, on (finished files only)}. Oracle: hash == 'xxh3:' + 16 lowercase hex digits of the one-shot xxh3_64 over exactly the bytes the counting source delivered, which must equal the file through its closing brace; identical across schedules and skip on/off; None when hashing is not requested; unchanged by a .slpp round trip. One evaluation = one read. distinct = workload classes x schedule.".into()
 	}
 	fn assumptions(&self) -> Vec<String> {
 		vec!["the XXH3-64 digest function (xxhash-rust one-shot API) is trusted; peppi uses the streaming API".into()]
@@ -97,7 +97,7 @@ impl Monitor for C11 {
 		// skip-frames presupposes that Game End is the last thing in the raw element
 		let finished = !truth.ends.is_empty() && truth.junk_after_end == 0;
 		let big = bytes.len() > 100_000;
-		let mut policies = vec![Policy::Whole, Policy::Fixed(1), Policy::Fixed(2), Policy::Fixed(3), Policy::Fixed(7), Policy::Fixed(64), Policy::Fixed(4096), Policy::Random(5, rng.next()), Policy::Random(300, rng.next()), Policy::Fixed(*rng.pick(&[15usize, 16, 255, 256, 257, 511, 512, 1000, 8191, 8192, 8193])), Policy::Fixed(*rng.pick(&[127usize, 128, 129, 256, 1024, 65536]))];
+		let mut policies = vec![Policy::Whole, Policy::Fixed(1), Policy::Fixed(2), Policy::Fixed(3), Policy::Fixed(7), Policy::Fixed(64), Policy::Fixed(4096), Policy::Random(5, rng.next()), Policy::Random(300, rng.next()), Policy::Fixed(*rng.pick(&[15usize, 16, 255, 256, 257, 511, 512, 1000, 8191, 8192, 8193])), Policy::Fixed(*rng.pick(&[127usize, 128, 129, 256, 1024, 65536])), Policy::Interrupt(*rng.pick(&[2usize, 3, 7, 50]))];
 		if big {
 			policies = vec![Policy::Whole, Policy::Fixed(7), Policy::Random(300, rng.next())];
 		}
